@@ -70,6 +70,10 @@ extern echs_evstrm_t echs_make_evstrm_rrul(echs_instant_t from, struct rrulsp_s 
 extern void echs_task_icalify(int whither, echs_task_t t);
 
 /**
+ * Write an exception date X in iCalendar form to WHITHER. */
+extern void echs_exdate_icalify(int whither, echs_instant_t x);
+
+/**
  * Helper for echsq(1) et al */
 extern void echs_unsc_icalify(int whither, const char *tuid);
 
